@@ -133,6 +133,7 @@ func NewScope() *Scope {
 }
 
 func (s *Scope) PruneDefinitions(protectedIdentifiers *pgsql.IdentifierSet) error {
+	verifScopeOp(s, "prune", protectedIdentifiers)
 	var (
 		prunedAliases     = make(map[pgsql.Identifier]pgsql.Identifier, len(s.aliases))
 		prunedDefinitions = make(map[pgsql.Identifier]*BoundIdentifier, len(s.definitions))
@@ -176,6 +177,7 @@ func (s *Scope) PruneDefinitions(protectedIdentifiers *pgsql.IdentifierSet) erro
 }
 
 func (s *Scope) Snapshot() *Scope {
+	verifScopeOp(s, "snapshot")
 	stackCopy := make([]*Frame, len(s.stack))
 	copy(stackCopy, s.stack)
 
@@ -244,6 +246,7 @@ func (s *Scope) ReferenceFrame() *Frame {
 }
 
 func (s *Scope) PopFrame() error {
+	verifScopeOp(s, "popFrame")
 	if len(s.stack) <= 0 {
 		return fmt.Errorf("no frame to pop")
 	}
@@ -253,6 +256,7 @@ func (s *Scope) PopFrame() error {
 }
 
 func (s *Scope) UnwindToFrame(frame *Frame) error {
+	verifScopeOp(s, "unwindToFrame", frame.id)
 	found := false
 
 	for idx := len(s.stack) - 1; idx >= 0; idx-- {
@@ -270,6 +274,7 @@ func (s *Scope) UnwindToFrame(frame *Frame) error {
 }
 
 func (s *Scope) PushFrame() (*Frame, error) {
+	verifScopeOp(s, "pushFrame")
 	newFrame := &Frame{
 		id:              s.nextFrameID,
 		Visible:         pgsql.NewIdentifierSet(),
@@ -323,6 +328,7 @@ func (s *Scope) Visible() *pgsql.IdentifierSet {
 
 func (s *Scope) Lookup(identifier pgsql.Identifier) (*BoundIdentifier, bool) {
 	binding, hasBinding := s.definitions[identifier]
+	verifScopeOp(s, "lookup", identifier, hasBinding)
 	return binding, hasBinding
 }
 
@@ -341,6 +347,7 @@ func (s *Scope) LookupBindings(identifiers ...pgsql.Identifier) ([]*BoundIdentif
 }
 
 func (s *Scope) Alias(alias pgsql.Identifier, binding *BoundIdentifier) {
+	verifScopeOp(s, "alias", alias, binding.Identifier)
 	binding.Alias = models.OptionalValue(alias)
 	s.aliases[alias] = binding.Identifier
 }
@@ -348,12 +355,14 @@ func (s *Scope) Alias(alias pgsql.Identifier, binding *BoundIdentifier) {
 // AliasParameter records the synthetic binding of a cypher parameter symbol. Parameter symbols are kept apart
 // from variable aliases: `MATCH (n) WHERE n.name = $n` refers to two different things named n.
 func (s *Scope) AliasParameter(symbol pgsql.Identifier, binding *BoundIdentifier) {
+	verifScopeOp(s, "aliasParameter", symbol, binding.Identifier)
 	binding.Alias = models.OptionalValue(symbol)
 	s.parameterAliases[symbol] = binding.Identifier
 }
 
 // ParameterLookup resolves a cypher parameter symbol to the binding created for it by AliasParameter.
 func (s *Scope) ParameterLookup(symbol pgsql.Identifier) (*BoundIdentifier, bool) {
+	verifScopeOp(s, "parameterLookup", symbol)
 	if identifier, aliased := s.parameterAliases[symbol]; aliased {
 		return s.Lookup(identifier)
 	}
@@ -366,6 +375,7 @@ func (s *Scope) Declare(identifier pgsql.Identifier) {
 }
 
 func (s *Scope) DefineNew(dataType pgsql.DataType) (*BoundIdentifier, error) {
+	verifScopeOp(s, "defineNew", dataType)
 	if newIdentifier, err := s.generator.NewIdentifier(dataType); err != nil {
 		return nil, err
 	} else {
@@ -374,6 +384,7 @@ func (s *Scope) DefineNew(dataType pgsql.DataType) (*BoundIdentifier, error) {
 }
 
 func (s *Scope) AliasedLookup(identifier pgsql.Identifier) (*BoundIdentifier, bool) {
+	verifScopeOp(s, "aliasedLookup", identifier)
 	if alias, aliased := s.aliases[identifier]; aliased {
 		return s.Lookup(alias)
 	}
@@ -398,6 +409,7 @@ func (s *Scope) LookupDataType(identifier pgsql.Identifier) (pgsql.DataType, boo
 }
 
 func (s *Scope) Define(identifier pgsql.Identifier, dataType pgsql.DataType) *BoundIdentifier {
+	verifScopeOp(s, "define", identifier, dataType)
 	boundIdentifier := &BoundIdentifier{
 		Identifier: identifier,
 		DataType:   dataType,
